@@ -74,6 +74,23 @@ Theorem C25_model_satisfies_oracle : forall repo sel setL addL remL,
   check_C25 (KRun repo sel setL addL remL 0 (run_tag repo sel setL addL remL)) = true.
 Proof. exact model_satisfies_oracle. Qed.
 
+(* the flag parser: split at commas (pieces joined by commas give the value back, no piece holds a
+   comma), each piece trimmed of surrounding ASCII white space *)
+Theorem C25_split_tag_list_spec : forall s,
+  length (split_tag_list s) = length (split_comma s)
+  /\ join_comma (split_comma s) = s
+  /\ forall t, In t (split_tag_list s) -> exists p, In p (split_comma s) /\ t = trim p /\ ~ In 44%N t.
+Proof. exact split_tag_list_spec. Qed.
+
+Theorem C25_trim_spec : forall s,
+  exists pre post, s = pre ++ trim s ++ post
+    /\ Forall (fun c => is_space c = true) pre /\ Forall (fun c => is_space c = true) post
+    /\ (forall c r, trim s = c :: r -> is_space c = false)
+    /\ (forall c r, trim s = r ++ [c] -> is_space c = false).
+Proof. exact trim_spec. Qed.
+
+Print Assumptions C25_split_tag_list_spec.
+Print Assumptions C25_trim_spec.
 Print Assumptions C25_add_tags_spec.
 Print Assumptions C25_add_tags_extends.
 Print Assumptions C25_add_tags_nodup.
